@@ -17,7 +17,7 @@ from mzverif.props import C08
 
 ID = "C11"
 LEVEL = "fault_enumeration"
-TECHNIQUE = "fault enumeration on the cache file the library itself wrote: every truncation point, single-byte corruptions (all bytes of the zip structures + dense stride elsewhere), every prefix of the writer operation log (save interrupted), injected write errors followed by a plain request, the same faults on a file that had been in use by this process, foreign files under the requested name, file-name collisions between configurations; oracle = fresh uncached generation, returned and stored configuration, loadable file left behind (read back from a copy elsewhere)"
+TECHNIQUE = "fault enumeration on the cache file the library itself wrote: every truncation point, single-byte corruptions (all bytes of the zip structures + dense stride elsewhere), every prefix of the writer operation log (save interrupted), injected write errors followed by a plain request, the same faults on a file that had been in use by this process, foreign files under the requested name, file-name collisions between configurations; oracle = fresh uncached generation, returned and stored configuration, loadable file left behind (read back from a copy elsewhere); requests with one configuration object edited in place between requests; near-variant pairs requested from one directory (dotted names, abbreviated maze counts)"
 RULE = (
     "case = (configuration from a fixed pool covering full and minimal storage formats with and without recorded filters, fault). "
     "Faults: missing, empty, truncate@k, corrupt@k (xor 0xFF / xor 0x01 / zero), interrupted@op k (+ half of that write), "
